@@ -29,7 +29,7 @@ TOL_EQ = 5e-4  # SCS value vs certified value (win probabilities)
 TOL_ORD = 2e-3  # order relations between two SCS values
 TOL_EXACT = 1e-12  # classical values of dyadic games
 GAP_MAX = 1e-5  # certificate interval width above which nothing is asserted
-TOL_BELL = 5e-4  # relative to scale = sum |coefficient| * |outcome values|
+TOL_BELL = 1e-3  # relative to scale = sum |coefficient| * |outcome values|
 
 RULE = (
     "XOR games are drawn by Hypothesis: q0, q1 in 1..5 (rectangular allowed), each row / column switched off with "
@@ -743,14 +743,14 @@ def nt_bell_corr(case):
 
 
 SUBCHECKS = [
-    SubCheck("tsirelson_interval", check_tsirelson, _xor_case, nt_game, quick=1200, thorough=16000, case_timeout=30),
-    SubCheck("npa1", check_npa1, _npa_case, nt_game, quick=320, thorough=4000, case_timeout=30),
+    SubCheck("tsirelson_interval", check_tsirelson, _xor_case, nt_game, quick=1000, thorough=12000, case_timeout=30),
+    SubCheck("npa1", check_npa1, _npa_case, nt_game, quick=288, thorough=3600, case_timeout=30),
     SubCheck("classical", check_classical, _xor_case, nt_shape, quick=2000, thorough=30000),
-    SubCheck("nonsignaling", check_nonsignaling, _ns_case, nt_shape, quick=160, thorough=2000, case_timeout=30),
-    SubCheck("order", check_order, _xor_case, nt_game, quick=1200, thorough=16000, case_timeout=30),
-    SubCheck("reps", check_reps, _reps_case, nt_reps, quick=240, thorough=3000, case_timeout=60),
+    SubCheck("nonsignaling", check_nonsignaling, _ns_case, nt_shape, quick=128, thorough=1600, case_timeout=30),
+    SubCheck("order", check_order, _xor_case, nt_game, quick=1000, thorough=12000, case_timeout=30),
+    SubCheck("reps", check_reps, _reps_case, nt_reps, quick=160, thorough=2000, case_timeout=60),
     SubCheck("conversion", check_conversion, _conv_case, nt_conv, quick=1500, thorough=20000),
     SubCheck("validation", check_validation, _valid_case, nt_valid, quick=2000, thorough=30000),
-    SubCheck("bell_m2", check_bell, _bell_case, nt_bell, quick=240, thorough=3000, case_timeout=30),
-    SubCheck("bell_tsirelson", check_bell_tsirelson, _bell_corr_case, nt_bell_corr, quick=160, thorough=2000, case_timeout=30),
+    SubCheck("bell_m2", check_bell, _bell_case, nt_bell, quick=208, thorough=2600, case_timeout=30),
+    SubCheck("bell_tsirelson", check_bell_tsirelson, _bell_corr_case, nt_bell_corr, quick=128, thorough=1600, case_timeout=30),
 ]
